@@ -613,19 +613,59 @@ func c02R4(c *Ctx) {
 	}
 	var infos []callInfo
 	loops := rangeLoops(ep, func(v ssa.Value) bool { return p.Render(v) == "e.root.Value.Array" })
+	// `e.ruleRoot = e.root; return e.evalRules(rules)` may be a helper of its own that the arms call
+	rootHelper := func(h *ssa.Function) (string, bool) {
+		if h == nil || h == ep || !p.inClusterOf(ep, h) {
+			return "", false
+		}
+		var inner *ssa.Call
+		for _, hc := range callsIn(h) {
+			if cvh, ok := hc.(*ssa.Call); ok && staticCalleeIs(cvh, "(*lang.Evaluator).evalRules") {
+				if inner != nil {
+					return "", false
+				}
+				inner = cvh
+			}
+		}
+		if inner == nil || len(inner.Call.Args) < 2 {
+			return "", false
+		}
+		if _, isPrm := inner.Call.Args[1].(*ssa.Parameter); !isPrm {
+			return "", false
+		}
+		root := ""
+		for _, st := range storesToField(h, "Evaluator", "ruleRoot", false) {
+			if dominatesInstr(st, inner) {
+				root = p.Render(st.Val)
+			}
+		}
+		for _, r := range returnsOf(h) {
+			if effectiveResults(r)[0] != ssa.Value(inner) {
+				return "", false
+			}
+		}
+		return root, root != ""
+	}
 	for _, call := range callsIn(ep) {
 		cv, ok := call.(*ssa.Call)
-		if !ok || !staticCalleeIs(cv, "(*lang.Evaluator).evalRules") {
+		if !ok {
+			continue
+		}
+		helperRoot, viaHelper := rootHelper(cv.Call.StaticCallee())
+		if !viaHelper && !staticCalleeIs(cv, "(*lang.Evaluator).evalRules") {
 			continue
 		}
 		ci := callInfo{tags: strings.Join(ms.At(cv.Block()), ",")}
+		if viaHelper {
+			ci.root = helperRoot
+		}
 		for _, l := range loops {
 			if l.Body.Dominates(cv.Block()) {
 				ci.inLoop = true
 			}
 		}
 		for _, st := range storesToField(ep, "Evaluator", "ruleRoot", false) {
-			if dominatesInstr(st, cv) && (st.Block() == cv.Block() || st.Block().Dominates(cv.Block())) {
+			if !viaHelper && dominatesInstr(st, cv) && (st.Block() == cv.Block() || st.Block().Dominates(cv.Block())) {
 				ci.root = p.Render(st.Val)
 			}
 		}
